@@ -106,7 +106,7 @@ def run(tier):
     if nval < len(recs):
         raise core.ToolError("vacuity: memo model consumed %d of %d records" % (nval, len(recs)))
     rc2 = v.finish()
-    ev = json.load(open(core.VERIF + "/evidence/C15.json"))
+    ev = json.load(open(core.EVIDENCE + "/C15.json"))
     ev["coverage"]["states"] += res.distinct
     ev["coverage"]["transitions"] += res.generated
     ev["coverage"]["traces_validated_against_impl"] += nval
@@ -115,5 +115,5 @@ def run(tier):
     ev["coverage"]["twin_comparisons"] = nval
     ev["violations"] += len(v.violations)
     ev["wall_s"] = round(time.time() - t0, 2)
-    json.dump(ev, open(core.VERIF + "/evidence/C15.json", "w"), indent=1, sort_keys=True)
+    json.dump(ev, open(core.EVIDENCE + "/C15.json", "w"), indent=1, sort_keys=True)
     return 1 if (rc or rc2) else 0
